@@ -25,7 +25,32 @@ func runC17(c *Check) {
 	c.Doc("C17-R2", "EO: flag cleared only after producing in the same iteration; set on notification.")
 	c.Doc("C17-R3", "EO: timers re-armed on every continuing path through their case.")
 	c.Doc("C17-R4", "EO: notifications do not trigger production in normal mode.")
+	c.Doc("C17-R6", "EO+VP: every production is followed, before the loop waits again, by a reset of the block timer whose duration derives from the configured block interval.")
 
+	// the notification channel: the channel field the notifier sends on
+	notifyField := "txNotifyCh"
+	if nfn := p.Func(mgrM("NotifyNewTransactions")); nfn != nil {
+		for _, b := range nfn.Blocks {
+			for _, in := range b.Instrs {
+				var ch ssa.Value
+				switch x := in.(type) {
+				case *ssa.Select:
+					for _, st := range x.States {
+						if st.Dir == types.SendOnly {
+							ch = st.Chan
+						}
+					}
+				case *ssa.Send:
+					ch = x.Chan
+				}
+				if ch != nil {
+					if t := TermOf(ch, &Ctx{Fn: nfn}); t.Op == "field" {
+						notifyField = t.Name
+					}
+				}
+			}
+		}
+	}
 	// ---- R1
 	nm := p.MustFunc(blockF("NewManager"))
 	capOK := false
@@ -36,7 +61,7 @@ func runC17(c *Check) {
 				continue
 			}
 			fa, ok := st.Addr.(*ssa.FieldAddr)
-			if !ok || derefStruct(fa.X.Type()) == nil || derefStruct(fa.X.Type()).Field(fa.Field).Name() != "txNotifyCh" {
+			if !ok || derefStruct(fa.X.Type()) == nil || fieldLabel(fa.X.Type(), fa.Field) != notifyField {
 				continue
 			}
 			if mk, ok := st.Val.(*ssa.MakeChan); ok {
@@ -62,7 +87,7 @@ func runC17(c *Check) {
 				case *ssa.Select:
 					for _, st := range x.States {
 						t := TermOf(st.Chan, &Ctx{Fn: nf})
-						if st.Dir == types.SendOnly && t.Op == "field" && t.Name == "txNotifyCh" && !x.Blocking {
+						if st.Dir == types.SendOnly && t.Op == "field" && t.Name == notifyField && !x.Blocking {
 							okSel = true
 						}
 					}
@@ -96,7 +121,7 @@ func runC17(c *Check) {
 							if t.Op == "field" && t.Name == "C" {
 								timers++
 							}
-							if t.Op == "field" && t.Name == "txNotifyCh" {
+							if t.Op == "field" && t.Name == notifyField {
 								notify = true
 							}
 						}
@@ -142,7 +167,7 @@ func runC17(c *Check) {
 		}
 		clears := g.Select(flagStore("false"))
 		sets := g.Select(flagStore("true"))
-		notifyEdges := selectCaseEdges(g, fieldNamed("txNotifyCh"))
+		notifyEdges := selectCaseEdges(g, fieldNamed(notifyField))
 		if len(sel) != 1 || len(notifyEdges) == 0 {
 			c.Unk("C17-R2", "lazy ⟂ anchors", fn, "", "anchor lost: select / notification case of the lazy loop")
 		} else {
@@ -211,6 +236,31 @@ func runC17(c *Check) {
 		if len(timerCases) < 2 {
 			c.Unk("C17-R3", "lazy ⟂ timers", fn, "", fmt.Sprintf("anchor lost: %d timer cases", len(timerCases)))
 		}
+		// R6: after every production the block timer is pushed back by the block interval
+		// before the loop waits again, whichever case produced
+		{
+			flagSet := g.Select(EdgeWhere(func(t *Term, pol bool, n *Node) bool {
+				t, pol = normFact(t, pol)
+				return pol && t.Op == "field" && t.Name == "txsAvailable"
+			}))
+			blockTimer := ""
+			for _, tname := range sortedKeys(timerCases) {
+				if len(flagSet) > 0 && g.PathAvoiding(timerCases[tname], nodeSet(flagSet), nodeSet(sel)) != nil {
+					blockTimer = tname
+				}
+			}
+			prods := g.Select(isProduce)
+			if blockTimer == "" || len(prods) == 0 || len(sel) != 1 {
+				c.Unk("C17-R6", "lazy ⟂ production→block-timer-pushed-back", fn, "", "anchor lost: block timer (the timer whose case tests the pending flag) / production call")
+			} else {
+				pushBack := func(n *Node) bool {
+					return CallName(n) == "(*time.Timer).Reset" && RecvTerm(n).String() == blockTimer && resetsByBlockTime(p, n)
+				}
+				path := g.PathAvoiding(prods, nodeSet(sel), pushBack)
+				c.Decide("C17-R6", "lazy ⟂ production→block-timer-pushed-back", fn, p.InstrPos(prods[0].In), "every path from a production back to the select resets the block timer by the block interval",
+					"after a block was produced (e.g. by the idle timer) the loop can wait again without pushing the block timer back by the block interval: the block timer keeps its old phase and the next block can follow in less than one block interval", g, path)
+			}
+		}
 	}
 	// ---- normal loop
 	{
@@ -218,7 +268,7 @@ func runC17(c *Check) {
 		c.NoteGraph(g)
 		fn := fnName(normal)
 		sel := g.Select(func(n *Node) bool { s, ok := n.In.(*ssa.Select); return ok && s.Blocking && n.Ctx.Depth == 0 })
-		notifyEdges := selectCaseEdges(g, fieldNamed("txNotifyCh"))
+		notifyEdges := selectCaseEdges(g, fieldNamed(notifyField))
 		if len(sel) != 1 || len(notifyEdges) == 0 {
 			c.Unk("C17-R4", "normal ⟂ anchors", fn, "", "anchor lost: select / notification case of the normal loop")
 		} else {
@@ -230,6 +280,10 @@ func runC17(c *Check) {
 				path := g.PathAvoiding([]*Node{e}, nodeSet(sel), reset)
 				c.Decide("C17-R3", "normal ⟂ block-timer-rearmed", fn, p.InstrPos(e.In), "every continuing path through the block-timer case resets the timer",
 					"the normal loop can return to its select without re-arming the block timer: block production stops", g, path)
+				pushBack := func(n *Node) bool { return CallName(n) == "(*time.Timer).Reset" && resetsByBlockTime(p, n) }
+				path3 := g.PathAvoiding(g.Select(isProduce), nodeSet(sel), pushBack)
+				c.Decide("C17-R6", "normal ⟂ production→block-timer-pushed-back", fn, p.InstrPos(e.In), "every path from a production back to the select resets the block timer by the block interval",
+					"after a block was produced the normal loop can wait again on a timer that was not reset by the block interval", g, path3)
 				// the block timer case produces
 				path2 := g.PathAvoiding([]*Node{e}, orPred(nodeSet(sel), g.AnyExit()), isProduce)
 				c.Decide("C17-R4", "normal ⟂ block-timer-produces", fn, p.InstrPos(e.In), "the block-timer case always calls the production function",
@@ -302,4 +356,17 @@ func runC17(c *Check) {
 	c.MinInstances("C17-R2", 4)
 	c.MinInstances("C17-R3", 3)
 	c.MinInstances("C17-R4", 2)
+	c.MinInstances("C17-R6", 2)
+}
+
+// resetsByBlockTime: the duration of the timer reset derives from the configured block interval
+// (directly, or as the remainder of it since a start time), not from the lazy interval.
+func resetsByBlockTime(p *Prog, n *Node) bool {
+	d := ArgTerm(n, 1)
+	if d == nil {
+		return false
+	}
+	isBT := func(t *Term) bool { return t.Op == "field" && t.Name == "BlockTime" }
+	isLazy := func(t *Term) bool { return t.Op == "field" && t.Name == "LazyBlockInterval" }
+	return p.DeepContains(d, isBT, 2) && !p.DeepContains(d, isLazy, 2)
 }
